@@ -74,17 +74,23 @@ theorem assign_hits_locals (E : Env) (G : Frame) (st st' : St) (n : String) (e :
     cases h
     exact ⟨v, hv, rfl, rfl⟩
 
-/-- `capture` does the same with the text its block produced; assignments made inside the block stay. -/
+/-- `capture` does the same with the text its block produced; assignments made inside the block stay.  (When an
+`extends` tag inside the block raised `StopRender` the exception passes the assignment.) -/
 theorem capture_hits_locals (E : Env) (G : Frame) (st st' : St) (n : String) (body : List Node) (o : String)
     (h : render E G st (.capture n body) = .ok (st', o)) :
-    ∃ st1 txt, renderList E G st body = .ok (st1, txt) ∧
-      st' = { st1 with locals := dictSet st1.locals n (.str txt) } ∧ o = "" := by
+    ∃ st1 txt, renderList E G st body = .ok (st1, txt) ∧ o = "" ∧
+      st' = (if st1.stopped then st1 else { st1 with locals := dictSet st1.locals n (.str txt) }) := by
   simp only [render] at h
   split at h
   · cases h
   · rename_i st1 txt hb
-    cases h
-    exact ⟨st1, txt, hb, rfl, rfl⟩
+    by_cases hs : st1.stopped = true
+    · rw [if_pos hs] at h
+      simp only [Except.ok.injEq, Prod.mk.injEq] at h
+      exact ⟨st1, txt, hb, h.2.symm, by rw [if_pos hs]; exact h.1.symm⟩
+    · rw [if_neg hs] at h
+      simp only [Except.ok.injEq, Prod.mk.injEq] at h
+      exact ⟨st1, txt, hb, h.2.symm, by rw [if_neg hs]; exact h.1.symm⟩
 
 /-- … so right after an `assign` the name reads back the assigned value unless a block scope shadows it. -/
 theorem assign_then_read (E : Env) (G : Frame) (st st' : St) (n : String) (e : Expr) (o : String)
@@ -127,19 +133,25 @@ the partial left (minus the two pushed namespaces). -/
 theorem include_shares_scope (E : Env) (G : Frame) (st : St) (name : String) (args : List (String × Expr))
     (body : List Node) (ns : NS)
     (hd : G.noInclude = false) (hl : lookupT E.templates name = some body)
-    (ha : evalArgs E G st args = .ok ns) (h1 : ¬ G.sz > E.depth) (h2 : ¬ G.sz + 1 > E.depth) :
+    (ha : evalArgs E G st args = .ok ns) (h1 : ¬ G.sz > E.depth) (h2 : ¬ G.sz + 1 > E.depth)
+    (hs : G.sz = 4 + st.pushed.length) :
     render E G st (.include name none args) =
-      popRes (popRes (renderList E { G with sz := G.sz + 2 }
+      popRes (popCatchRes (renderList E { G with sz := G.sz + 2, tnodes := body }
         { st with pushed := [("partial", .bool true)] :: dictOf ns :: st.pushed } body)) := by
-  simp only [render, hd, hl, ha, h1, renderPartial, h2, Bool.false_eq_true, if_false, dite_false]
+  have s1 : sizeBad G st = false := by simp [sizeBad, hs]
+  have s2 : ∀ (G' : Frame) (st2 : St), G'.sz = G.sz + 1 → st2.pushed = dictOf ns :: st.pushed → sizeBad G' st2 = false := by
+    intro G' st2 a b; simp [sizeBad, a, b, hs]; omega
+  simp only [render, hd, hl, ha, h1, renderPartial, h2, s1, Bool.false_eq_true, if_false, dite_false]
+  rw [s2 _ _ rfl rfl]
+  simp only [Bool.false_eq_true, if_false]
 
 /-- … in particular what the partial assigns is visible to the caller afterwards. -/
 theorem include_assign_visible (E : Env) (G : Frame) (st : St) (name n : String) (v : Val)
     (hd : G.noInclude = false) (hl : lookupT E.templates name = some [.assign n (.lit v)])
-    (h1 : ¬ G.sz > E.depth) (h2 : ¬ G.sz + 1 > E.depth) :
+    (h1 : ¬ G.sz > E.depth) (h2 : ¬ G.sz + 1 > E.depth) (hs : G.sz = 4 + st.pushed.length) (hst : st.stopped = false) :
     render E G st (.include name none []) = .ok ({ st with locals := dictSet st.locals n v }, "") := by
-  rw [include_shares_scope E G st name [] _ [] hd hl rfl h1 h2]
-  simp [renderList, render, eval, evalExpr, popRes]
+  rw [include_shares_scope E G st name [] _ [] hd hl rfl h1 h2 hs]
+  simp [renderList, render, eval, evalExpr, popRes, popCatchRes, hst]
 
 /-! ## Paths -/
 
@@ -262,6 +274,7 @@ theorem get_item_spec (cfg : Cfg) (obj key : Val) :
   | tuple xs => cases obj <;> simp [getItem, specItem, subscript, asIndex, isStr]
   | dict kvs => cases obj <;> simp [getItem, specItem, subscript, asIndex, isStr]
   | clock t => cases obj <;> simp [getItem, specItem, subscript, asIndex, isStr]
+  | drop => cases obj <;> simp [getItem, specItem, subscript, asIndex, isStr]
 
 /-- the documented resolution of a whole path: the root through the scope chain, then the table step by step; the
 first step that finds nothing gives the undefined value -/
@@ -374,7 +387,7 @@ example : renderTemplate E0 [("x", .str "A"), ("l", .list [.str "B"])] [("x", .s
      .out (.path (.name "x") [])] = .ok "0BL" := by
   simp [renderTemplate, renderList, render, iterFor, eval, evalExpr, evalPath, evalSeg, evalSegs, ctxGet, walk,
     View.root, view, lookupChain, dictGet, dictSet, topGlobals, dictMerge, St.fresh, showOut, iterItems,
-    counterGet, popLoopRes, forloopDrop, builtinGet, E0, Val.isUndef]
+    counterGet, popLoopRes, forloopDrop, builtinGet, E0, Val.isUndef, topFrame, sizeBad]
   rfl
 
 /-- include shares the scope (reads `y`, assigns `x`) -/
@@ -382,7 +395,7 @@ example : renderTemplate E0 [] [] [] []
     [.assign "y" (.lit (.str "Y")), .include "p" none [], .out (.path (.name "x") [])] = .ok "YP" := by
   simp [renderTemplate, renderList, render, renderPartial, eval, evalExpr, evalPath, evalSeg, evalSegs, ctxGet, walk,
     View.root, view, lookupChain, dictGet, dictSet, dictOf, topGlobals, dictMerge, St.fresh, showOut, popRes,
-    lookupT, evalArgs, E0, builtinGet]
+    lookupT, evalArgs, E0, builtinGet, topFrame, sizeBad, popCatchRes]
 
 example : specWalk E0.cfg (.dict [("a", .list [.int 1, .str "hey"])]) [.str "a", .int (-1), .str "size"] = .int 3 := by
   simp [specWalk, specItem, dictGet, specIndex]; rfl
